@@ -257,3 +257,28 @@ def decode_queries(case, r, n_spec_only=False):
 def eq_exc(a, b):
     # TermMissingError is a KeyError subclass raised as itself; compare names exactly
     return a == b
+
+
+def normalize_domain(case):
+    """Re-establish the domain split after a case was cut down (shrinking) or loaded from the corpus: queries the SPEC has
+    no opinion about move from `queries` (compared with model and spec) to `xqueries` (compared with the model only):
+    positions of a term that does not occur in the corpus; a ranged tf with unaligned bounds for an unknown term."""
+    if "queries" not in case or "docs" not in case:
+        return case
+    present = set(t for d in case["docs"] for t in (d or []))
+    keep, move = [], []
+    for q in case["queries"]:
+        out = False
+        if q[0] == "pos" and q[1] not in present:
+            out = True
+        if q[0] == "tfr" and q[1] not in present:
+            lo, hi = q[2], q[3]
+            if (lo is not None and lo % 18 != 0) or (hi is not None and hi % 18 != 17):
+                out = True
+        (move if out else keep).append(q)
+    if not move:
+        return case
+    e = dict(case)
+    e["queries"] = keep
+    e["xqueries"] = list(case.get("xqueries", [])) + move
+    return e
